@@ -1486,11 +1486,16 @@ def gen_sequence(ctx, n, tier):
     rng = ctx.sub_rng('sequence', tier, n)
     nin = rng.choice([1, 2, 2, 3])
     r, c = rng.choice([(2, 2), (2, 2), (2, 3), (3, 2), (1, 3), (3, 1), (1, 2)])
+    # every third history is a RECOMPUTE history: one derived value f(X) is computed, X is updated in place, f(X) is
+    # computed again (twice over) -- whatever a Matrix object remembers about itself must not outlive an update
+    recompute = (n % 3 == 0)
+    if recompute:
+        r, c = 2, 2
     inputs = []
     for k in range(nin):
         rr, cc = (r, c) if k == 0 or rng.random() < 0.7 else rng.choice([(c, r), (r, r), (c, c)])
         mb = rng.choice([8, 10, 12, 16, 64])
-        inputs.append((rr, cc, rng.randint(2, 5), mb))
+        inputs.append((rr, cc, rng.randint(2, 3) if (recompute and k == 0) else rng.randint(2, 5), mb))
     pool = {'in%d' % k: obj(o[0], o[1], o[2], o[3], [[0] * o[1] for _ in range(o[0])]) for k, o in enumerate(inputs)}
     nsteps = rng.randint(4, 9 if tier == 'quick' else 12)
     steps = []
@@ -1499,16 +1504,28 @@ def gen_sequence(ctx, n, tier):
              'matmul', 'stack', 'stack', 'reduce', 'iadd', 'isub', 'isub', 'imul', 'imatmul', 'ipow', 'setitem_s',
              'setitem_m', 'put', 'setbits', 'setbits', 'setbits']
     tries = 0
+    forced = []
+    if recompute:
+        f_kind = rng.choice(['pow2', 'pow2', 'pow1', 'matmul_self', 'transpose', 'reduce', 'add_self', 'flatten', 'copy'])
+        upd = lambda: rng.choice(['setitem_s', 'setitem_s', 'put', 'setitem_m', 'isub'])
+        forced = [f_kind, upd(), f_kind, upd(), f_kind]
+        if rng.random() < 0.5:
+            forced = [rng.choice(['add', 'transpose', 'setitem_s'])] + forced
+        nsteps = max(nsteps, len(forced) + 1)
     while len(steps) < nsteps and tries < 200:
         tries += 1
         ids = list(pool)
+        fk = forced.pop(0) if forced else None
 
         def pick():
             # prefer objects touched recently (the histories that matter are about one object)
             return rng.choice(recent[-3:]) if rng.random() < 0.65 else rng.choice(ids)
         i = pick()
-        a = pool[i]
         kind = rng.choice(kinds)
+        if fk is not None:
+            i = 'in0'
+            kind = {'pow2': 'pow', 'pow1': 'pow', 'matmul_self': 'matmul', 'add_self': 'add'}.get(fk, fk)
+        a = pool[i]
         st = {'op': kind, 'i': i, 'new': 'r%d' % len(steps)}
         big = a['b'] > 14
         if kind in ('probe', 'copy', 'transpose', 'reversed'):
@@ -1526,19 +1543,21 @@ def gen_sequence(ctx, n, tier):
             st['args'] = {'order': rng.choice('CF')}
         elif kind in ('pow', 'ipow'):
             n_ = rng.choice([0, 1, 2, 2])
+            if fk in ('pow2', 'pow1'):
+                n_ = 2 if fk == 'pow2' else 1
             if a['r'] != a['c'] or a['r'] > 2 or (n_ == 2 and a['b'] > 6):
                 continue
             st['args'] = {'n': n_}
         elif kind in ('add', 'sub', 'mul', 'iadd', 'isub', 'imul'):
             cands = [k for k in ids if (pool[k]['r'], pool[k]['c']) == (a['r'], a['c'])]
-            st['j'] = rng.choice(cands)
+            st['j'] = i if fk == 'add_self' else rng.choice(cands)
             if kind in ('mul', 'imul') and a['b'] + pool[st['j']]['b'] > 20:
                 continue
         elif kind in ('matmul', 'imatmul'):
             cands = [k for k in ids if pool[k]['r'] == a['c'] and pool[k]['b'] + a['b'] <= 10]
             if not cands or a['r'] * a['c'] > 6:
                 continue
-            st['j'] = rng.choice(cands)
+            st['j'] = i if (fk == 'matmul_self' and i in cands) else rng.choice(cands)
         elif kind == 'stack':
             st['op'] = rng.choice(['hstack', 'vstack', 'concatenate'])
             ax = rng.choice([0, 1])
@@ -1553,6 +1572,9 @@ def gen_sequence(ctx, n, tier):
         elif kind == 'reduce':
             st['op'] = rng.choice(list(REDUCERS))
             st['args'] = {'axis': rng.choice([0, 1]), 'bits': rng.choice([None, None, rng.randint(1, 8)])}
+            if fk == 'reduce':          # the same reduction each time it is recomputed
+                st['op'] = sorted(REDUCERS)[n % len(REDUCERS)]
+                st['args'] = {'axis': n % 2, 'bits': None}
         elif kind == 'setitem_s':
             st['args'] = {'key': (rng.randint(-a['r'], a['r'] - 1), rng.randint(-a['c'], a['c'] - 1))}
             st['x'] = rng.choice([0, (1 << min(a['b'], 16)) - 1, rng.randint(0, (1 << min(a['b'], 16)) - 1)])
